@@ -722,7 +722,15 @@ class ExpressionEvaluator:
         """Evaluate an AST node and return its value."""
         method = f'_eval_{type(node).__name__}'
         if hasattr(self, method):
-            return getattr(self, method)(node)
+            try:
+                return getattr(self, method)(node)
+            except ExpressionError:
+                raise
+            except Exception as e:
+                # Ill-typed or partial expressions (e.g. amount > "x", next() on an
+                # exhausted generator, a bad regex) are expression errors, so callers
+                # that skip on ExpressionError skip them too instead of aborting.
+                raise ExpressionError(f"{type(e).__name__}: {e}") from e
         raise ExpressionError(f"Cannot evaluate node type: {type(node).__name__}")
 
     def _eval_Expression(self, node: ast.Expression) -> Any:
@@ -896,7 +904,15 @@ class TransactionEvaluator:
         """Evaluate an AST node and return its value."""
         method = f'_eval_{type(node).__name__}'
         if hasattr(self, method):
-            return getattr(self, method)(node)
+            try:
+                return getattr(self, method)(node)
+            except ExpressionError:
+                raise
+            except Exception as e:
+                # Ill-typed or partial expressions (e.g. amount > "x", next() on an
+                # exhausted generator, a bad regex) are expression errors, so callers
+                # that skip on ExpressionError skip them too instead of aborting.
+                raise ExpressionError(f"{type(e).__name__}: {e}") from e
         raise ExpressionError(f"Cannot evaluate node type: {type(node).__name__}")
 
     def _eval_Expression(self, node: ast.Expression) -> Any:
